@@ -37,10 +37,16 @@ impl<T> InnerQueue<T> {
     }
 
     pub fn send(&self, t: T) -> Result<(), T> {
+        #[cfg(may_verif)]
+        crate::verif::pt("chan.send.load_port", crate::verif::addr(self), 0, 0);
         if unlikely(self.port_dropped.load(Ordering::Acquire)) {
             return Err(t);
         }
+        #[cfg(may_verif)]
+        crate::verif::pt("chan.send.push", crate::verif::addr(self), 0, 0);
         self.queue.push(t);
+        #[cfg(may_verif)]
+        crate::verif::pt("chan.send.take", crate::verif::addr(self), 0, 0);
         if let Some(w) = self.to_wake.take() {
             w.unpark();
         }
@@ -55,6 +61,8 @@ impl<T> InnerQueue<T> {
 
         let cur = Blocker::current();
         // register the waiter
+        #[cfg(may_verif)]
+        crate::verif::pt("chan.recv.reg", crate::verif::addr(self), crate::verif::addr(&*cur), 0);
         self.to_wake.store(cur.clone());
         // re-check the queue
         match self.try_recv() {
@@ -63,6 +71,8 @@ impl<T> InnerQueue<T> {
             }
             data => {
                 // no need to park, contention with send
+                #[cfg(may_verif)]
+                crate::verif::pt("chan.recv.clear", crate::verif::addr(self), 0, 0);
                 self.to_wake.clear();
                 return data;
             }
@@ -74,13 +84,19 @@ impl<T> InnerQueue<T> {
 
     #[inline]
     pub fn try_recv(&self) -> Result<T, TryRecvError> {
+        #[cfg(may_verif)]
+        crate::verif::pt("chan.try.pop", crate::verif::addr(self), 0, 0);
         match self.queue.pop() {
             Some(data) => Ok(data),
             None => {
+                #[cfg(may_verif)]
+                crate::verif::pt("chan.try.load_ch", crate::verif::addr(self), 0, 0);
                 if likely(self.channels.load(Ordering::Acquire) > 0) {
                     Err(TryRecvError::Empty)
                 } else {
                     // there is no sender any more, should re-check
+                    #[cfg(may_verif)]
+                    crate::verif::pt("chan.try.repop", crate::verif::addr(self), 0, 0);
                     self.queue.pop().ok_or(TryRecvError::Disconnected)
                 }
             }
@@ -88,10 +104,14 @@ impl<T> InnerQueue<T> {
     }
 
     pub fn clone_chan(&self) {
+        #[cfg(may_verif)]
+        crate::verif::pt("chan.clone.inc", crate::verif::addr(self), 0, 0);
         self.channels.fetch_add(1, Ordering::AcqRel);
     }
 
     pub fn drop_chan(&self) {
+        #[cfg(may_verif)]
+        crate::verif::pt("chan.drop.dec", crate::verif::addr(self), 0, 0);
         match self.channels.fetch_sub(1, Ordering::AcqRel) {
             1 => self.to_wake.take().map(|w| w.unpark()).unwrap_or(()),
             n if n > 1 => {}
@@ -100,6 +120,8 @@ impl<T> InnerQueue<T> {
     }
 
     pub fn drop_port(&self) {
+        #[cfg(may_verif)]
+        crate::verif::pt("chan.port.store", crate::verif::addr(self), 0, 0);
         self.port_dropped.store(true, Ordering::Release);
         // clear all the data
         while self.queue.pop().is_some() {}
